@@ -145,6 +145,43 @@ def judge(ctx, case):
         fail(ctx, case, '%s:pin_not_recovered_from_clear_block%s' % (fmt, ':pin_len_ge_10' if plen >= 10 else ''),
              {'got': pb2.pin, 'want': pin})
         return
+    if fmt == 'iso0':
+        # neighbouring cards in the same process: one digit changed at a time (anything remembered about the first card -
+        # its account digits, its mask - must not leak into the next one), and a neighbouring PIN on the same card
+        for p in (-13, -12, -7, -2, -1, 0):
+            if -p > len(pan):
+                continue
+            pan2 = pan[:len(pan) + p if p < 0 else p] + str((int(pan[p]) + 1 + plen) % 10) + (pan[len(pan) + p + 1:] if p < 0 else pan[1:])
+            if pan2 == pan or len(pan2) != len(pan):
+                continue
+            want2 = ref.iso0_clear(pin, pan2)
+            ok, pbn = step(ctx, case, 'construct', cls, pin, card_number=pan2)
+            if not ok:
+                return
+            ok, clear2 = step(ctx, case, 'iso0.to_bytes', pbn.to_bytes)
+            if not ok:
+                return
+            ctx.count('neighbouring card numbers judged')
+            if clear2 != want2:
+                fail(ctx, case, 'iso0:clear_block_differs:after_a_neighbouring_card', {'pan2': pan2, 'changed_position': p,
+                                                                                      'got': bytes(clear2).hex(), 'want': want2.hex()})
+                return
+            ok, pbr = step(ctx, case, 'iso0.from_bytes', cls.from_bytes, want2, card_number=pan2)
+            if not ok:
+                return
+            if pbr.pin != pin:
+                fail(ctx, case, 'iso0:pin_not_recovered_from_clear_block:after_a_neighbouring_card', {'pan2': pan2, 'changed_position': p,
+                                                                                                     'got': pbr.pin, 'want': pin})
+                return
+        pin2 = pin[:-1] + str((int(pin[-1]) + 3) % 10)
+        ok, pbn = step(ctx, case, 'construct', cls, pin2, card_number=pan)
+        if ok:
+            ok, clear2 = step(ctx, case, 'iso0.to_bytes', pbn.to_bytes)
+        if not ok:
+            return
+        if clear2 != ref.iso0_clear(pin2, pan):
+            fail(ctx, case, 'iso0:clear_block_differs:after_a_neighbouring_pin', {'pin2': pin2, 'got': bytes(clear2).hex()})
+            return
     if not cipher:
         if len(ctx.samples) < 3:
             ctx.sample({'flavour': f, 'pin': pin, 'pan': pan, 'clear_block': want.hex()})
@@ -252,6 +289,8 @@ def canaries(ctx):
 
 def require(m):
     reasons = []
+    if not m['counters'].get('neighbouring card numbers judged') and not m['violations']:
+        reasons.append('no neighbouring card numbers judged')
     if set(m['classes'].get('PIN lengths', ())) != set(range(4, 13)):
         reasons.append('not every PIN length 4..12 was driven')
     if set(m['classes'].get('PAN lengths', ())) != set(range(13, 20)):
